@@ -386,7 +386,30 @@ class _IfInvert(__import__('ast').NodeTransformer):
     return n
 
 
+class _LogCall(__import__('ast').NodeTransformer):
+  """a logging call at the top of every function (not where locals() is
+  captured) and `object` annotations on all parameters"""
+
+  def visit_FunctionDef(self, n):
+    import ast
+    self.generic_visit(n)
+    for a in n.args.args:
+      if a.arg not in ('self', 'cls') and a.annotation is None:
+        a.annotation = ast.Name(id='object', ctx=ast.Load())
+    if any(isinstance(c, ast.Call) and getattr(c.func, 'id', '') == 'locals'
+           for c in ast.walk(n)):
+      return n
+    body = n.body
+    i = 1 if body and isinstance(body[0], ast.Expr) and isinstance(
+        body[0].value, ast.Constant) else 0
+    n.body = body[:i] + [ast.parse("logging.debug('entering')").body[0]] + \
+        body[i:]
+    return n
+
+
 GLOBAL_NEUTRALS = [('ast.unparse round trip', None),
+                   ('logging call at the top of every function, annotated '
+                    'parameters', _LogCall),
                    ('two-armed ifs and conditional expressions inverted',
                     _IfInvert),
                    ('keyword arguments reversed', _KwRev),
